@@ -134,6 +134,16 @@ def run_case(case):
                             clause = f"{mode}-{'ids' if ret is int else 'tuples'}"
                             raise Violation(clause, f"shape={kind}{(w, h, d)} centre={centre} given as {rname} r={r} incl={incl} "
                                                     f"entry={entry}: got {got}, expected {exp}")
+                        if rname in ("id", "tuple", "pos") and got:
+                            # the caller edits the list it was handed and asks the same question again
+                            got.reverse()
+                            got.pop()
+                            again = (env.get_moore_neighbours if mode == "moore" else env.get_neumann_neighbours)(rep, r, incl, ret)
+                            if again is got or [tuple(g) if ret is tuple else g for g in again] != exp:
+                                raise Violation("answer-changed-after-caller-edited-the-result",
+                                                f"shape={kind}{(w, h, d)} centre={centre} r={r} incl={incl} kind={mode}: after the caller edited the "
+                                                f"returned list the same query answered {again}, expected {exp}")
+                            got = again
                         if ret is int:
                             back = [table[int(i)] if isinstance(i, (int, np.integer)) and 0 <= i < len(table) else None for i in got]
                             if back != exp_t:
